@@ -370,7 +370,7 @@ fn run_history(hseed: u64, thorough: bool, scratch: &std::path::Path, tot: &mut 
     let mut it = Interner::new();
     let mut steps_coq: Vec<String> = Vec::new();
     let mut steps_json: Vec<Value> = Vec::new();
-    let max_ops = if thorough { 60 } else { 34 };
+    let max_ops = if thorough { 60 } else { 30 };
     let q_per_step = if thorough { 12 } else { 9 };
 
     // the chain the indexer has indexed, and the node's main chain
@@ -609,7 +609,7 @@ fn main() {
     let mut rng = Rng::new(seed);
     let mut tot = Totals::default();
     let shards = 16usize;
-    let n_hist = if thorough { 80 } else { 32 };
+    let n_hist = if thorough { 78 } else { 30 };
     let header = "From CKB Require Import Indexer.Query.";
     let mut files: Vec<CaseFile> = (0..shards)
         .map(|i| {
